@@ -438,6 +438,16 @@ def cycle_catalogue():
             for i in range(n)) + "  type(t0) :: obj\ncontains\n" + "".join(
             f"  subroutine f{i}(self)\n    class(t{i}) :: self\n  end subroutine f{i}\n" for i in range(n))
             + "  subroutine use_it()\n    call obj%f()\n    obj%c0 = 1\n  end subroutine use_it\nend module m\n"}
+        if n >= 2:
+            # the same cycle with every type in a module (and file) of its own
+            def mod_text(i):
+                return (f"module mm{i}\n  use mm{(i + 1) % n}\n  implicit none\n  type, extends(t{(i + 1) % n}) :: t{i}\n    integer :: c{i}\n"
+                        f"  contains\n    procedure :: show => show{i}\n  end type t{i}\n  type(t{i}) :: obj{i}\ncontains\n"
+                        f"  subroutine show{i}(self)\n    class(t{i}), intent(in) :: self\n    print *, self%c{i}\n    call obj{i}%show()\n"
+                        f"  end subroutine show{i}\nend module mm{i}\n")
+            xm = {f"mm{i}.f90": mod_text(i) for i in range(1, n)}
+            xm["a.f90"] = mod_text(0)
+            progs[f"extends_cycle_across_modules_{n}"] = xm
         progs[f"pointer_cycle_{n}"] = {"a.f90": "program p\n" + "".join(
             f"  integer, pointer :: x{i} => x{(i + 1) % n}\n" for i in range(n)) + "  x0 = 1\nend program p\n"}
         progs[f"submodule_cycle_{n}"] = {"a.f90": "".join(
@@ -636,6 +646,12 @@ def build(reg):
 def replay(obligation, model, rep):
     w = cycle_catalogue()
     return {"confirmed": bool(w), "witness": w}
+
+
+def search(func, tier, seed, obligation=""):
+    """bounded native search behind every shape / termination obligation: the catalogue of cyclic programs and of
+    include orders, with every positional request at every identifier"""
+    return cycle_catalogue() or include_order_catalogue(tier)
 
 
 TRUSTED = [
